@@ -504,7 +504,7 @@ class Sim:
         self.shadow_rev[label] = k
 
     def on_add_pre(self, db, start, ends, rule):
-        if isinstance(db, RuleDBForest):
+        if isinstance(db, RuleDBForest) and hasattr(db.table_method, "_rules"):
             self.key_stack.append([len(db.table_method._rules), 0])  # pylint: disable=protected-access
         self.adds += 1
         self.clock.event()
@@ -706,7 +706,7 @@ def exec_ops(sim, R, ctx, on_spec, ops=None):
                     sim.mirrors.restored(css2, restored[1:])
                 ctx.fault("pickle_restart")
                 ctx.ev("restart", sim.packets)
-                if any(css.classqueue.curr_level):
+                if any(getattr(css.classqueue, "curr_level", ())):
                     ctx.probe("restart_mid_level")
                 if sim.focus in ("C17", "ALL") and not css2 == css:
                     raise Violation("C17:restored-unequal", f"searcher != its pickle round trip (rule db {R['config']['ruledb']}, after {sim.packets} packets)")
@@ -817,6 +817,9 @@ def check_forest_extraction(sim, ctx, start):
     if not isinstance(db, RuleDBForest):
         return
     tm = db.table_method
+    if not hasattr(tm, "_rules"):
+        ctx.probe("table_internals_unavailable")
+        return
     delivered = [(k.parent, tuple(k.children), tuple(k.shifts), k.bucket.name) for k in tm._rules]  # pylint: disable=protected-access
     root = css.start_label
     ext = ForestRuleExtractor(root, db, css.classdb, css.strategy_pack)
@@ -825,7 +828,7 @@ def check_forest_extraction(sim, ctx, start):
     c11.check_extraction(delivered, needed, root, ctx, tag="C11:")
     nontrivial = ctx.nontrivial
     # each extracted key can be turned back into a concrete rule of the pack with the same key
-    rules = list(ext.rules(db._rule_cache))  # pylint: disable=protected-access
+    rules = list(ext.rules(getattr(db, "_rule_cache", ())))
     keyset = set(delivered)
     for rule in rules:
         # rules() hands equivalences out in their one-child form; the key belongs to the rule it was built from
